@@ -138,4 +138,256 @@ theorem phase_params (h : Hdr) (L : Layout) (hL : WfLayout L) : ∀ (ps : List S
     rw [hset] at hc'
     simpa [paramRaws, List.replicate_succ, List.append_assoc] using hc'
 
+
+/-- description lines appended one by one give the joined text -/
+theorem join_lf_push (x l : Str) (ls : List Str) :
+    join ['\n'] ((x ++ '\n' :: l) :: ls) = x ++ '\n' :: join ['\n'] (l :: ls) := by
+  cases ls with
+  | nil => simp [join]
+  | cons y ys => simp [join]
+
+theorem foldl_appendDesc (x : Str) : ∀ (ls : List Str), ls.foldl appendDesc (some x) = some (join ['\n'] (x :: ls))
+  | [] => rfl
+  | l :: ls => by
+    simp only [List.foldl_cons, appendDesc]
+    rw [foldl_appendDesc (x ++ '\n' :: l) ls, join_lf_push]
+    cases ls <;> simp [join]
+
+/-- the lines of the block description, read in the description part -/
+theorem phase_desc (h : Hdr) (L : Layout) (hL : WfLayout L) : ∀ (ls : List Str) (ln : Nat) (st : BSt) (blk : BlockM)
+    (inds : List Str), Clean st blk inds → st.inPart = some .desc → (∀ l ∈ ls, wfDescLine l = true) →
+    ∃ st', lineLoop h (ls.map (layLine L)) ln st = .ok st' ∧
+      Clean st' { blk with description := ls.foldl appendDesc blk.description } (inds ++ List.replicate ls.length L.indent) ∧
+      st'.inPart = some .desc
+  | [], ln, st, blk, inds, hc, hin, _ => ⟨st, rfl, by simpa using hc, hin⟩
+  | l :: ls, ln, st, blk, inds, hc, hin, hw => by
+    simp only [List.map_cons, lineLoop]
+    have hstep := lineBody_desc h { st with blockIndent := st.blockIndent ++ [L.indent] } blk (ln + 1) (colOf L l)
+      (layLine L l) l hc.block hin (hw l (by simp))
+    rw [lineStep_lay h st (ln + 1) L hL l, hstep]
+    simp only []
+    obtain ⟨st', hl, hc', hin'⟩ := phase_desc h L hL ls (ln + 1)
+      { st with blockIndent := st.blockIndent ++ [L.indent],
+                block := some { blk with description := appendDesc blk.description l } }
+      { blk with description := appendDesc blk.description l } (inds ++ [L.indent])
+      ⟨rfl, hc.partIndent, hc.returnsSeen, hc.diags, by simp [hc.blockIndent]⟩ hin (fun x hx => hw x (by simp [hx]))
+    refine ⟨st', hl, ?_, hin'⟩
+    simpa [List.replicate_succ, List.append_assoc] using hc'
+
+/-! ### the clean-up -/
+
+theorem split1_noSep {c : Char} {t : Str} (h : c ∉ t) : (split1 c t).1 = t := by
+  rw [split1_token_none h]
+
+theorem cleanDescription_raw (name : Str) (p : SPart) (ln : Nat) (h : wfPartBody p = true) :
+    cleanDescription (partRaw name p ln) = partImage name p ln := by
+  simp only [wfPartBody, Bool.and_eq_true] at h
+  obtain ⟨_, hd⟩ := h
+  unfold cleanDescription partRaw partImage rawDesc
+  cases hd' : p.desc with
+  | none =>
+    cases hae : p.anns.isEmpty with
+    | true => simp
+    | false => simp
+  | some d =>
+    rw [hd'] at hd
+    obtain ⟨htr, hnb, _⟩ := wfDescText_spec hd
+    have hne : d.isEmpty = false := by cases d with
+      | nil => exact absurd rfl htr.ne_nil
+      | cons _ _ => rfl
+    have hlf : '\n' ∉ d := noBreak_not_mem_lf hnb
+    cases hae : p.anns.isEmpty with
+    | true =>
+      simp only [Bool.true_and, Option.isNone_some, Bool.false_eq_true, if_false, if_true, hne, strip_trimmed htr,
+        split1_noSep hlf, matchEmpty_trimmed htr]
+    | false =>
+      have hlf' : '\n' ∉ ' ' :: d := by
+        intro hm; rcases List.mem_cons.mp hm with h | h
+        · exact absurd h (by decide)
+        · exact hlf h
+      have hme : matchEmpty (' ' :: d) = false := by
+        have := matchEmpty_trimmed htr
+        simp only [matchEmpty] at this
+        simp only [matchEmpty, List.all_cons, this, Bool.and_false]
+      simp only [Bool.false_and, Bool.false_eq_true, if_false, List.isEmpty_cons, strip_space_trimmed space_isSpace htr,
+        hne, split1_noSep hlf', hme]
+
+theorem paramRaws_clean : ∀ (ps : List SPart) (ln : Nat), (∀ p ∈ ps, wfParam p = true) →
+    (paramRaws ps ln).map (fun e => (e.1, cleanDescription e.2)) = paramImages ps ln
+  | [], _, _ => rfl
+  | p :: ps, ln, h => by
+    simp only [paramRaws, paramImages, List.map_cons, cleanDescription_raw p.name p ln (wfParam_spec (h p (by simp))).2.2.2]
+    rw [paramRaws_clean ps (ln + 1) (fun q hq => h q (by simp [hq]))]
+
+theorem join_lf_trimmed : ∀ (ls : List Str), ls ≠ [] → (∀ l ∈ ls, Trimmed l) → Trimmed (join ['\n'] ls)
+  | [], h, _ => absurd rfl h
+  | [l], _, hw => hw l (by simp)
+  | l :: m :: ms, _, hw => by
+    rw [join_cons_cons]
+    have hl := hw l (by simp)
+    have hr := join_lf_trimmed (m :: ms) (by simp) (fun x hx => hw x (by simp [hx]))
+    obtain ⟨c, cs, he, hc⟩ := hl.head
+    obtain ⟨ds, d, hd, hdd⟩ := hr.last
+    exact ⟨⟨c, cs ++ ['\n'] ++ join ['\n'] (m :: ms), by rw [he]; simp, hc⟩,
+      ⟨l ++ ['\n'] ++ ds, d, by rw [hd]; simp, hdd⟩⟩
+
+theorem strip_append_lf {d : Str} (h : Trimmed d) : strip (d ++ ['\n']) = d := by
+  unfold strip
+  obtain ⟨c, cs, he, hc⟩ := h.head
+  have h1 : lstrip (d ++ ['\n']) = d ++ ['\n'] := by
+    rw [he]; exact lstrip_cons_of_not_space hc
+  rw [h1]
+  obtain ⟨ds, x, hx, hxs⟩ := h.last
+  unfold rstrip
+  rw [hx]
+  simp [List.dropWhile, show isSpace '\n' = true by decide, hxs]
+
+/-! ### the comment tokens -/
+
+theorem findStart_lay (si : Str) (hsi : ∀ x ∈ si, isSpace x = true) :
+    findStart (si ++ str "/**") 0 = some (0, si.length) := by
+  have hws : countWs (si ++ str "/**") = si.length :=
+    countWhile_append_stop isSpace si '/' _ hsi (by decide)
+  have hd : (si ++ str "/**").drop si.length = str "/**" := drop_append_len _ _
+  cases hsi' : si ++ str "/**" with
+  | nil => simp [str] at hsi'
+  | cons c cs =>
+    rw [findStart, ← hsi', hws, hd]
+    simp [startTokenAt, str]
+
+theorem matchStart_lay (si : Str) (hsi : ∀ x ∈ si, isSpace x = true) :
+    matchStart (si ++ str "/**") =
+      some [("code", 0, 0), ("token", si.length, si.length + 3), ("comment", si.length + 3, si.length + 3)] := by
+  unfold matchStart
+  rw [findStart_lay si hsi]
+  have hd : (si ++ str "/**").drop (si.length + 3) = [] := List.drop_eq_nil_of_le (by simp [str])
+  simp only [hd, trimmedSpan_nil]
+
+theorem matchEnd_lay (ei : Str) (hei : ∀ x ∈ ei, isSpace x = true) :
+    matchEnd (ei ++ str "*/") =
+      some [("comment", ei.length, ei.length), ("token", ei.length, ei.length + 2), ("code", ei.length + 2, ei.length + 2)] := by
+  unfold matchEnd
+  have hws : countWs (ei ++ str "*/") = ei.length :=
+    countWhile_append_stop isSpace ei '*' _ hei star_not_space
+  have hd : (ei ++ str "*/").drop ei.length = str "*/" := drop_append_len _ _
+  simp only [hws]
+  rw [hd]
+  have hf : findEnd (str "*/") ei.length = some (ei.length, ei.length, ei.length + 2) := by
+    simp [str, findEnd, endTokenAt, countWs, countWhile, star_not_space]
+  rw [hf]
+  have hd2 : (ei ++ str "*/").drop (ei.length + 2) = [] := List.drop_eq_nil_of_le (by simp [str])
+  simp [hd2, rstrip]
+
+theorem openBlock_lay (L : Layout) (hL : WfLayout L) (body : List Str) (n : Nat) :
+    openBlock ((L.startIndent ++ str "/**") :: (body ++ [L.endIndent ++ str "*/"])) n =
+      .ok (some { lines := body, hdr := { line := n, codeBefore := [], codeAfter := [] } }, []) := by
+  unfold openBlock
+  simp only []
+  rw [matchStart_lay L.startIndent (fun x hx => (hL.startIndent x hx).1)]
+  have hn : ((L.startIndent ++ str "/**") :: (body ++ [L.endIndent ++ str "*/"])).length ≠ 1 := by simp
+  simp only [hn, if_false]
+  have hlast : (body ++ [L.endIndent ++ str "*/"]).getLast? = some (L.endIndent ++ str "*/") := by simp
+  simp [groupText, hlast, matchEnd_lay L.endIndent (fun x hx => (hL.endIndent x hx).1)]
+
+
+/-! ### the identifier line and the part after the parameters -/
+
+theorem identLine_head (name : Str) (a : Anns) (hw : wfWord name = true) :
+    ∃ c cs, identLine name a = c :: cs ∧ isSpace c = false := by
+  obtain ⟨hne, hall⟩ := wfWord_spec hw
+  cases name with
+  | nil => exact absurd rfl hne
+  | cons c cs =>
+    have hc := isWord_not_space (hall c (by simp))
+    unfold identLine
+    split
+    · exact ⟨c, cs ++ [':'], rfl, hc⟩
+    · exact ⟨c, cs ++ ':' :: ' ' :: serializeAnnotations a, rfl, hc⟩
+
+theorem lineBody_ident (h : Hdr) (st : BSt) (ln col : Nat) (orig : Str) (name : Str) (a : Anns)
+    (hw : wfWord name = true) (hs : NotSectionAction name) (ha : wfAnns a = true) (hb : st.block = none) :
+    lineBody h st ln col orig (identLine name a) =
+      .ok { st with inPart := some .ident, partIndent := some 0, block := some (identBlock h name a ln) } := by
+  obtain ⟨c, cs, he, hc⟩ := identLine_head name a hw
+  unfold lineBody
+  rw [hb]
+  simp only []
+  rw [identStep_symbol h st ln col orig _ name a hw hs ha, he, lineIndent_nonspace cs hc]
+
+/-- the optional description part: an empty line and the description lines -/
+theorem phase_descPart (h : Hdr) (L : Layout) (hL : WfLayout L) (ds : List Str) (ln : Nat) (st : BSt) (blk : BlockM)
+    (inds : List Str) (hc : Clean st blk inds) (hin : st.inPart = some .ident ∨ st.inPart = some .params)
+    (hnone : blk.description = none) (hw : ∀ l ∈ ds, wfDescLine l = true) :
+    ∃ st', lineLoop h ((if ds.isEmpty then [] else [] :: ds).map (layLine L)) ln st = .ok st' ∧
+      Clean st' { blk with description := if ds.isEmpty then none else some (join ['\n'] ds) }
+        (inds ++ List.replicate (if ds.isEmpty then [] else [] :: ds).length L.indent) ∧
+      (if ds.isEmpty then (st'.inPart = some .ident ∨ st'.inPart = some .params) else st'.inPart = some .desc) := by
+  cases ds with
+  | nil =>
+    refine ⟨st, rfl, ?_, by simpa using hin⟩
+    have : blk = { blk with description := none } := by rw [← hnone]
+    simp only [List.isEmpty_nil, if_true, List.length_nil, List.replicate_zero, List.append_nil]
+    rw [← this]; exact hc
+  | cons d ds =>
+    simp only [List.isEmpty_cons, Bool.false_eq_true, if_false, List.map_cons, lineLoop]
+    have hstep := lineBody_blank_first h { st with blockIndent := st.blockIndent ++ [L.indent] } blk (ln + 1)
+      (colOf L []) (layLine L []) hc.block hin
+    rw [lineStep_lay h st (ln + 1) L hL [], hstep]
+    simp only []
+    obtain ⟨st', hl, hc', hin'⟩ := phase_desc h L hL (d :: ds) (ln + 1)
+      { st with blockIndent := st.blockIndent ++ [L.indent], inPart := some .desc, partIndent := some 0 } blk
+      (inds ++ [L.indent]) ⟨hc.block, rfl, hc.returnsSeen, hc.diags, by simp [hc.blockIndent]⟩ rfl hw
+    simp only [List.map_cons] at hl
+    refine ⟨st', hl, ?_, hin'⟩
+    rw [hnone] at hc'
+    have hf : (d :: ds).foldl appendDesc none = some (join ['\n'] (d :: ds)) := by
+      simp only [List.foldl_cons, appendDesc]; exact foldl_appendDesc d ds
+    rw [hf] at hc'
+    simpa [List.replicate_succ, List.append_assoc] using hc'
+
+/-- the optional tag part: an empty line and the `Returns:` line -/
+theorem phase_tagPart (h : Hdr) (L : Layout) (hL : WfLayout L) (r : SPart) (hr : wfPartBody r = true) (ln : Nat)
+    (st : BSt) (blk : BlockM) (inds : List Str) (hc : Clean st blk inds)
+    (hin : st.inPart = some .desc ∨ (st.inPart = some .ident ∨ st.inPart = some .params)) :
+    ∃ st', lineLoop h ([[], returnsLine r].map (layLine L)) ln st = .ok st' ∧ st'.diags = [] ∧
+      st'.blockIndent = inds ++ [L.indent, L.indent] ∧
+      st'.block = some (setTag { blk with description := if st.inPart = some .desc then appendDesc blk.description []
+                                                           else blk.description }
+                          (partRaw (str Gen.tagReturns) r (ln + 2))) := by
+  simp only [List.map_cons, List.map_nil, lineLoop]
+  rw [lineStep_lay h st (ln + 1) L hL []]
+  have hft := (partFields_spec r hr).2
+  rcases hin with hd | hip
+  · -- the empty line belongs to the description
+    have hstep := lineBody_blank_desc h { st with blockIndent := st.blockIndent ++ [L.indent] } blk (ln + 1)
+      (colOf L []) (layLine L []) hc.block hd
+    rw [hstep]
+    simp only []
+    rw [lineStep_lay h _ (ln + 1 + 1) L hL (returnsLine r)]
+    have hret := lineBody_returns h
+      { st with blockIndent := st.blockIndent ++ [L.indent] ++ [L.indent],
+                block := some { blk with description := appendDesc blk.description [] } }
+      { blk with description := appendDesc blk.description [] } (ln + 1 + 1) (colOf L (returnsLine r))
+      (layLine L (returnsLine r)) (partTail r) r hr hft rfl hd hc.partIndent hc.returnsSeen
+    unfold returnsLine at hret ⊢
+    rw [hret]
+    refine ⟨_, rfl, hc.diags, by simp [hc.blockIndent], ?_⟩
+    simp [hd]
+  · -- the empty line ends the identifier / parameter part
+    have hstep := lineBody_blank_first h { st with blockIndent := st.blockIndent ++ [L.indent] } blk (ln + 1)
+      (colOf L []) (layLine L []) hc.block hip
+    rw [hstep]
+    simp only []
+    rw [lineStep_lay h _ (ln + 1 + 1) L hL (returnsLine r)]
+    have hret := lineBody_returns h
+      { st with blockIndent := st.blockIndent ++ [L.indent] ++ [L.indent], inPart := some .desc, partIndent := some 0 }
+      blk (ln + 1 + 1) (colOf L (returnsLine r))
+      (layLine L (returnsLine r)) (partTail r) r hr hft hc.block rfl rfl hc.returnsSeen
+    unfold returnsLine at hret ⊢
+    rw [hret]
+    refine ⟨_, rfl, hc.diags, by simp [hc.blockIndent], ?_⟩
+    have hnd : st.inPart ≠ some .desc := by rcases hip with h | h <;> rw [h] <;> simp
+    simp [hnd]
+
+
 end GIVerif.AnnParse
